@@ -592,18 +592,19 @@ class HintTreeCode(HintTreeABC):
         #
         # Note that this should *NEVER* happen, but probably nonetheless will.
         if self.index_last >= FIXED_LIST_SIZE_MEDIUM:  # pragma: no cover
-            # Metadata encapsulating the previously enqueued root hint.
-            root_hint_meta = self._hint_queue[0]
-
-            # This root hint.
-            root_hint = root_hint_meta.hint_sane.hint
-
-            # Raise an exception embedding this root hint.
+            # Raise an exception embedding this child hint.
+            #
+            # Note that this exception intentionally does *NOT* embed the root
+            # hint. The metadata previously encapsulating the root hint at the
+            # head of this queue has already been visited and thus
+            # deinitialized by this BFS; attempting to access that hint here
+            # would raise a non-human-readable "AttributeError" instead.
             raise BeartypeDecorHintRecursionException(
                 f'{self.exception_prefix}child type hint {repr(hint_child)} '
                 f'non-type-checkable. '
-                f'Recursion detected when generating code type-checking from '
-                f'root type hint {repr(root_hint)} to this child type hint. '
+                f'Recursion (or more than {FIXED_LIST_SIZE_MEDIUM} transitive '
+                f'child type hints) detected when generating code '
+                f'type-checking this child type hint. '
                 f'Please submit this exception traceback as a new issue '
                 f'to our friendly issue tracker:\n'
                 f'\t{URL_ISSUES}\n'
